@@ -4131,9 +4131,20 @@ func (a *Agent) completeFileUpload(fts *fileTransferStream) {
 	}
 	defer tmpFile.Close()
 
+	// Resolve symlinks and re-check the destination right before writing: the write must
+	// go to the real path that was validated, inside the allowed paths
+	destPath, err := a.fileStreamHandler.ResolvePath(fts.Meta.Path)
+	if err != nil {
+		a.logger.Error("file upload destination not allowed",
+			logging.KeyStreamID, fts.StreamID,
+			logging.KeyError, err)
+		a.WriteStreamOpenErr(fts.PeerID, fts.StreamID, fts.RequestID, protocol.ErrNotAllowed, err.Error())
+		return
+	}
+
 	// Write file to final destination
 	written, err := a.fileStreamHandler.WriteUploadedFile(
-		fts.Meta.Path,
+		destPath,
 		tmpFile,
 		fts.Meta.Mode,
 		fts.Meta.IsDirectory,
@@ -4173,17 +4184,27 @@ func (a *Agent) sendFileDownload(fts *fileTransferStream) {
 		return
 	}
 
+	// Resolve symlinks and re-check the source: everything below reads the real path that
+	// was validated, inside the allowed paths
+	srcPath, err := a.fileStreamHandler.ResolvePath(fts.Meta.Path)
+	if err != nil {
+		a.logger.Error("file download source not allowed",
+			logging.KeyStreamID, fts.StreamID,
+			logging.KeyError, err)
+		a.WriteStreamOpenErr(fts.PeerID, fts.StreamID, fts.RequestID, protocol.ErrNotAllowed, err.Error())
+		return
+	}
+
 	var reader io.Reader
 	var size int64
 	var mode uint32
 	var isDir bool
-	var err error
 	var originalSize int64
 
 	// Check if this is a resume request
 	if fts.Meta.Offset > 0 {
 		// Validate that file hasn't changed
-		info, statErr := os.Stat(fts.Meta.Path)
+		info, statErr := os.Stat(srcPath)
 		if statErr != nil {
 			a.logger.Error("file download stat failed",
 				logging.KeyStreamID, fts.StreamID,
@@ -4206,7 +4227,7 @@ func (a *Agent) sendFileDownload(fts *fileTransferStream) {
 
 		// Use offset-aware reader
 		reader, size, mode, isDir, err = a.fileStreamHandler.ReadFileForDownloadAtOffset(
-			fts.Meta.Path, fts.Meta.Offset, fts.Meta.Compress)
+			srcPath, fts.Meta.Offset, fts.Meta.Compress)
 		if err != nil {
 			a.logger.Error("file download read at offset failed",
 				logging.KeyStreamID, fts.StreamID,
@@ -4217,7 +4238,7 @@ func (a *Agent) sendFileDownload(fts *fileTransferStream) {
 		}
 	} else {
 		// Normal download from beginning
-		reader, size, mode, isDir, err = a.fileStreamHandler.ReadFileForDownload(fts.Meta.Path, fts.Meta.Compress)
+		reader, size, mode, isDir, err = a.fileStreamHandler.ReadFileForDownload(srcPath, fts.Meta.Compress)
 		if err != nil {
 			a.logger.Error("file download read failed",
 				logging.KeyStreamID, fts.StreamID,
@@ -4228,7 +4249,7 @@ func (a *Agent) sendFileDownload(fts *fileTransferStream) {
 
 		// Get original size for non-resume downloads
 		if !isDir {
-			if info, err := os.Stat(fts.Meta.Path); err == nil {
+			if info, err := os.Stat(srcPath); err == nil {
 				originalSize = info.Size()
 			}
 		}
